@@ -229,7 +229,7 @@ Definition holds (th : thread) : bool :=
   match t_pc th with
   | PC (C_cb1 | C_cb2 | C_open | C_rem | C_rel) => true
   | PS (S_ref | S_app | S_rel) => true
-  | PR (R_ref | R_rel | R_pop | R_rel2 _) => true
+  | PR (R_ref | R_len | R_pop | R_rel2 _ | R_rel0) => true
   | PD _ => true
   | _ => false
   end.
@@ -242,6 +242,7 @@ Definition pc_ok (th : thread) : bool :=
   | PC _, Connect :: _ => true
   | PS _, Send _ :: _ => true
   | PR R_sleep, Recv nb :: _ => negb nb
+  | PR (R_orel | R_olen | R_oacq2), _ => false
   | PR (R_rel2 (ROk | RConnErr | REmpty)), _ => false
   | PR _, Recv _ :: _ => true
   | PD _, Disconnect :: _ => true
@@ -367,7 +368,7 @@ Definition rel_dist (p : pc) : nat :=
   match p with
   | PC C_cb1 => 5 | PC C_cb2 => 4 | PC C_open => 3 | PC C_rem => 2 | PC C_rel => 1
   | PS S_ref => 3 | PS S_app => 2 | PS S_rel => 1
-  | PR R_ref => 2 | PR R_rel => 1 | PR R_pop => 2 | PR (R_rel2 _) => 1
+  | PR R_ref => 4 | PR R_len => 3 | PR R_pop => 2 | PR (R_rel2 _) => 1 | PR R_rel0 => 1
   | PD D_getl => 9 | PD (D_call _) => 8 | PD D_ochk => 7 | PD D_orm => 6 | PD D_rchk => 5
   | PD D_rrm => 4 | PD D_rpop => 3 | PD D_lpop => 2 | PD D_rel => 1
   | _ => 0
@@ -865,8 +866,127 @@ Proof.
     destruct (nocb_logs_tr k tr1 (nocb_suffix _ _ _ _ _ NC E)) as [-> ->]. eapply I2; eauto.
 Qed.
 
-(* the link between what a non-blocking receive reports and what it observed, per step:
-   it reports emptiness exactly when its length check saw 0, it never sleeps *)
+(* ---- the length check and the pop of one recv happen in one locked region *)
+Lemma length_zero : forall A (l : list A), List.length l = 0 -> l = [].
+Proof. intros A [|x l] H; [reflexivity|discriminate]. Qed.
+
+Lemma apply_q : forall l t ths s evs,
+  s_q (apply l t ths s evs) =
+  match l with
+  | LQApp k m => aset k (qget k (s_q s) ++ [m]) (s_q s)
+  | LQPop k => aset k (tl (qget k (s_q s))) (s_q s)
+  | _ => s_q s
+  end.
+Proof. intros; destruct l; reflexivity. Qed.
+
+Lemma ne_qmod : forall s th l th' evs,
+  next Fixed s th = Some (l, th', evs) ->
+  (match l with LQApp _ _ | LQPop _ => True | _ => False end) -> holds th = true.
+Proof. intros s th l th' evs H Hl. next_inv H; des2; simpl in Hl; try contradiction; unfold holds; rewrite Hpc; reflexivity. Qed.
+
+Lemma ne_to_pop : forall s th l th' evs,
+  next Fixed s th = Some (l, th', evs) -> t_pc th' = PR R_pop ->
+  qget (t_key th) (s_q s) <> [] /\ (forall k m, l <> LQApp k m) /\ (forall k, l <> LQPop k).
+Proof.
+  intros s th l th' evs H E. next_inv H; des2; simpl in E; try discriminate.
+  repeat split; try discriminate. intros Q. rewrite Q in *. discriminate.
+Qed.
+Lemma ne_to_rel0 : forall s th l th' evs,
+  next Fixed s th = Some (l, th', evs) -> t_pc th' = PR R_rel0 ->
+  qget (t_key th) (s_q s) = [] /\ (forall k m, l <> LQApp k m) /\ (forall k, l <> LQPop k).
+Proof.
+  intros s th l th' evs H E. next_inv H; des2; simpl in E; try discriminate.
+  repeat split; try discriminate. apply length_zero. apply Nat.eqb_eq. assumption.
+Qed.
+
+Definition inv_pop (s : state) : Prop :=
+  forall t th, nth_error (s_th s) t = Some th ->
+    (t_pc th = PR R_pop -> qget (t_key th) (s_q s) <> []) /\
+    (t_pc th = PR R_rel0 -> qget (t_key th) (s_q s) = []).
+
+Lemma inv_pop_step : forall s t l s', inv_lock s -> inv_pop s -> stepl Fixed s t = Some (l, s') -> inv_pop s'.
+Proof.
+  intros s t l s' [Iok Ih Il] I H n x Hx.
+  pose proof (stepl_inv _ _ _ _ _ H) as (th & th' & evs & Ht & Hn & He & Hs').
+  assert (Hq : s_q s' = match l with
+                        | LQApp k m => aset k (qget k (s_q s) ++ [m]) (s_q s)
+                        | LQPop k => aset k (tl (qget k (s_q s))) (s_q s)
+                        | _ => s_q s end) by (subst s'; apply apply_q).
+  destruct (step_threads _ _ _ _ _ _ _ H Hx) as (th0 & th0' & evs0 & Ht0 & Hn0 & Hc).
+  rewrite Ht in Ht0; inversion Ht0; subst th0. rewrite Hn in Hn0; inversion Hn0; subst th0' evs0.
+  destruct Hc as [[-> Hc]|[Hne (y & Hy & Hc)]]; apply ctl_kc in Hc; destruct Hc as (Hk & _ & Hp & _).
+  - destruct (next_keeps _ _ _ _ _ Hn) as [N1 _]. rewrite Hk, N1, Hp. split; intros E.
+    + destruct (ne_to_pop _ _ _ _ _ Hn E) as (Q & A & B). rewrite Hq.
+      destruct l; auto; [exfalso; eapply A; eauto | exfalso; eapply B; eauto].
+    + destruct (ne_to_rel0 _ _ _ _ _ Hn E) as (Q & A & B). rewrite Hq.
+      destruct l; auto; [exfalso; eapply A; eauto | exfalso; eapply B; eauto].
+  - (* another thread moved while this one is inside its locked region *)
+    rewrite Hk, Hp. destruct (I _ _ Hy) as [I1 I2].
+    assert (G : (t_pc y = PR R_pop \/ t_pc y = PR R_rel0) -> s_q s' = s_q s).
+    { intros Hpc. assert (Hhy : holds y = true) by (unfold holds; destruct Hpc as [-> | ->]; reflexivity).
+      pose proof (Ih _ _ Hy Hhy) as L1. rewrite Hq.
+      destruct l; auto; exfalso; assert (Hh : holds th = true) by (eapply ne_qmod; eauto; exact Logic.I);
+      pose proof (Ih _ _ Ht Hh) as L2; congruence. }
+    split; intros E; rewrite G by auto; auto.
+Qed.
+
+Lemma reach_inv_pop : forall cfg s, reach cfg s -> inv_pop s.
+Proof.
+  intros cfg s R. induction R.
+  - intros t th H. apply init_thread in H. destruct H as ([[k cb] ops] & _ & ->). split; discriminate.
+  - eapply inv_pop_step; eauto. eapply reach_inv_lock; eauto.
+Qed.
+
+Lemma out_grow_false : forall (r : res) l, l = r :: l -> False.
+Proof. intros r l H. apply (f_equal (@List.length res)) in H. simpl in H. lia. Qed.
+
+(* how a step changes the results of the acting thread *)
+Lemma ne_out : forall s th l th' evs,
+  next Fixed s th = Some (l, th', evs) -> pc_ok th = true ->
+  t_out th' = t_out th \/
+  (exists r, t_out th' = r :: t_out th /\
+     (r = RIndexErr -> t_pc th = PR (R_rel2 RIndexErr)) /\
+     (r = REmpty -> t_pc th = PR R_rel0 /\ l = LRel /\ exists ops, t_ops th = Recv true :: ops)).
+Proof.
+  intros s th l th' evs H Hok. unfold pc_ok in Hok.
+  next_inv H; rewrite ?Hops, ?Hpc in Hok; des2; simpl; auto;
+  right; eexists; (split; [reflexivity|]); split; intros X; try discriminate X; subst; try discriminate Hok; eauto.
+Qed.
+
+(* ================= a receive never fails with IndexError (any number of receivers per key) *)
+Definition recv_never_index_error_stmt : Prop :=
+  forall cfg sch t th, nth_error (s_th (run Fixed (init cfg) sch)) t = Some th ->
+    ~ In RIndexErr (t_out th) /\ t_pc th <> PR (R_rel2 RIndexErr).
+
+Lemma ne_to_idx : forall s th l th' evs,
+  next Fixed s th = Some (l, th', evs) -> t_pc th' = PR (R_rel2 RIndexErr) ->
+  t_pc th = PR R_pop /\ qget (t_key th) (s_q s) = [].
+Proof. intros s th l th' evs H E. next_inv H; des2; simpl in E; try discriminate; auto. Qed.
+
+Theorem recv_never_index_error : recv_never_index_error_stmt.
+Proof.
+  intros cfg sch.
+  assert (G : forall s, reach cfg s -> forall t th, nth_error (s_th s) t = Some th ->
+              ~ In RIndexErr (t_out th) /\ t_pc th <> PR (R_rel2 RIndexErr)).
+  { intros s R. induction R; intros n x Hx.
+    - apply init_thread in Hx. destruct Hx as ([[k cb] ops] & _ & ->). split; [intros []|discriminate].
+    - pose proof (reach_inv_pop _ _ R) as IP.
+      destruct (step_threads _ _ _ _ _ _ _ H Hx) as (th & th' & evs & Ht & Hn & Hc).
+      pose proof (il_ok _ (reach_inv_lock _ _ R) _ _ Ht) as Hok.
+      destruct Hc as [[-> Hc]|[Hne (y & Hy & Hc)]]; apply ctl_kc in Hc; destruct Hc as (_ & _ & Hp & _ & Ho).
+      + rewrite Ho, Hp. destruct (IHR _ _ Ht) as [I1 I2]. split.
+        * destruct (ne_out _ _ _ _ _ Hn Hok) as [->|(r & -> & Hr & _)]; auto.
+          intros [E|E]; [apply I2; apply Hr; exact E | exact (I1 E)].
+        * intros E. destruct (ne_to_idx _ _ _ _ _ Hn E) as [P Q].
+          destruct (IP _ _ Ht) as [IP1 _]. exact (IP1 P Q).
+      + rewrite Ho, Hp. eapply IHR; eauto. }
+  intros t th. apply G. apply reach_run. constructor.
+Qed.
+
+(* ================= what a non-blocking receive reports, per step: it never sleeps; it
+   reports emptiness exactly when it leaves the locked region in which its length check
+   saw 0, and at that very moment the queue IS empty (for a plain key: everything sent
+   has been received) *)
 Definition recv_nb_step_stmt : Prop :=
   forall cfg sch t th ops l s',
     let s := run Fixed (init cfg) sch in
@@ -874,14 +994,10 @@ Definition recv_nb_step_stmt : Prop :=
     stepl Fixed s t = Some (l, s') ->
     l <> LSleep /\
     forall th', nth_error (s_th s') t = Some th' ->
-      (t_out th' = REmpty :: t_out th <-> l = LQLen (t_key th) 0) /\
-      (l = LQLen (t_key th) 0 -> qget (t_key th) (s_q s) = []).
-
-Lemma length_zero : forall A (l : list A), List.length l = 0 -> l = [].
-Proof. intros A [|x l] H; [reflexivity|discriminate]. Qed.
-
-Lemma out_grow_false : forall (r : res) l, l = r :: l -> False.
-Proof. intros r l H. apply (f_equal (@List.length res)) in H. simpl in H. lia. Qed.
+      (t_out th' = REmpty :: t_out th <-> t_pc th = PR R_rel0) /\
+      (t_out th' = REmpty :: t_out th ->
+         qget (t_key th) (s_q s) = [] /\
+         (plain cfg (t_key th) -> sent_log (t_key th) (s_tr s) = recv_log (t_key th) (s_tr s))).
 
 Theorem recv_nb_step : recv_nb_step_stmt.
 Proof.
@@ -890,24 +1006,21 @@ Proof.
   pose proof (il_ok _ (reach_inv_lock _ _ R) _ _ Ht) as Hok.
   destruct (step_actor _ _ _ _ H) as (th1 & th1' & evs & x & Ht1 & Hn & Hx & Hc).
   rewrite Ht in Ht1; inversion Ht1; subst th1. apply ctl_kc in Hc. destruct Hc as (_ & _ & _ & _ & Ho).
-  unfold pc_ok in Hok. rewrite Hops in Hok.
-  assert (G : l <> LSleep /\ (t_out th1' = REmpty :: t_out th <-> l = LQLen (t_key th) 0) /\
-              (l = LQLen (t_key th) 0 -> qget (t_key th) (s_q s) = [])).
-  { unfold next in Hn. rewrite Hops in Hn.
-    destruct (t_pc th) as [|c|c|c|c] eqn:Hpc; try discriminate; try (destruct c; try discriminate);
-    cbn beta iota in Hn;
-    repeat match type of Hn with context [match qget ?k ?q with _ => _ end] => destruct (qget k q) eqn:?Hq end;
-    try (destruct r; try discriminate Hok);
-    inversion Hn; subst; clear Hn;
-    try (match goal with |- context [LQLen _ (List.length ?q)] => destruct (List.length q) eqn:E; simpl;
-         [split; [discriminate|split; [split; auto | intros _; apply length_zero; auto]]|] end);
-    simpl;
-    (split; [discriminate|split; [split; intros X; [try discriminate X; exfalso; eapply out_grow_false; eauto | discriminate X] | intros X; discriminate X]]).
-  }
-  destruct G as (G1 & G2 & G3). split; auto.
-  intros th' Hx'. rewrite Hx in Hx'; inversion Hx'; subst x. rewrite Ho. auto.
+  assert (G1 : l <> LSleep).
+  { unfold pc_ok in Hok. rewrite Hops in Hok. intros ->. next_inv Hn; try discriminate;
+    try (rewrite Hops in Hops0; inversion Hops0; subst; rewrite Hpc in Hok; discriminate). }
+  split; auto. intros th' Hx'. rewrite Hx in Hx'; inversion Hx'; subst x. rewrite Ho.
+  assert (G2 : t_out th1' = REmpty :: t_out th -> t_pc th = PR R_rel0).
+  { intros E. destruct (ne_out _ _ _ _ _ Hn Hok) as [E2|(r & E2 & _ & Hr)].
+    - rewrite E2 in E. exfalso. eapply out_grow_false; eauto.
+    - rewrite E2 in E. inversion E; subst. apply Hr; reflexivity. }
+  split; [split; auto|].
+  - intros Hpc. unfold next in Hn. rewrite Hops, Hpc in Hn. cbn beta iota in Hn. inversion Hn; subst. reflexivity.
+  - intros E. pose proof (G2 E) as Hpc.
+    destruct (reach_inv_pop _ _ R _ _ Ht) as [_ Q]. specialize (Q Hpc). split; auto.
+    intros Hp. pose proof (fifo_exact cfg sch (t_key th) Hp) as F. cbv zeta in F. unfold s in Q |- *.
+    rewrite Q, app_nil_r in F. exact F.
 Qed.
-
 
 (* ------------------------------------------------------------------ part 10 *)
 Definition msgs_of (l : list res) : list msg :=
@@ -1021,37 +1134,341 @@ Fixpoint script_ok (ops : list op) : bool :=      (* no connect after a disconne
   | _ :: r => script_ok r
   end.
 
-(* FULL statement for callback endpoints (NOT proved, see fifo_exact_cb_partial): when
-   the receiver key k and the sender key (rkey k) each belong to one thread and the
-   receiver never connects again after a disconnect, then also with callback delivery
-   received = prefix of sent and the remainder is the pending queue. *)
+(* ---- scripts *)
+Lemma no_connect_tl : forall ops, no_connect ops = true -> no_connect (tl ops) = true.
+Proof. intros [|o ops] H; simpl in *; auto. apply andb_true_iff in H. tauto. Qed.
+Lemma no_connect_script_ok : forall ops, no_connect ops = true -> script_ok ops = true.
+Proof.
+  induction ops as [|o ops IH]; intros H; simpl in *; auto.
+  apply andb_true_iff in H. destruct H as [H1 H2]. destruct o; auto; discriminate.
+Qed.
+Lemma script_ok_tl : forall ops, script_ok ops = true -> script_ok (tl ops) = true.
+Proof. intros [|o ops] H; simpl in *; auto. destruct o; auto. apply no_connect_script_ok; auto. Qed.
+
+Lemma ne_ops : forall s th l th' evs,
+  next Fixed s th = Some (l, th', evs) -> t_ops th' = t_ops th \/ t_ops th' = tl (t_ops th).
+Proof. intros s th l th' evs H. next_inv H; des2; simpl; rewrite ?Hops; auto. Qed.
+
+Lemma ne_l_rcbpop : forall s th th' evs q,
+  next Fixed s th = Some (LRcbPop q, th', evs) ->
+  q = t_key th /\ exists ops, t_ops th = Disconnect :: ops.
+Proof. intros s th th' evs q H. next_inv H; eauto. Qed.
+
+Definition appending (p : pc) : bool :=
+  match p with PS (S_acq | S_ref | S_app) => true | _ => false end.
+
+Lemma ne_to_sget : forall s th l th' evs,
+  next Fixed s th = Some (l, th', evs) -> t_pc th' = PS S_get -> kmem (rkey (t_key th)) (s_open s) = true.
+Proof. intros s th l th' evs H E. next_inv H; des2; simpl in E; try discriminate; auto. Qed.
+Lemma ne_to_scall2 : forall s th l th' evs tg,
+  next Fixed s th = Some (l, th', evs) -> t_pc th' = PS (S_call tg) ->
+  aget (rkey (t_key th)) (s_rcb s) = Some tg /\ (forall q m, l <> LQApp q m) /\ (forall q, l <> LQPop q).
+Proof.
+  intros s th l th' evs tg H E. next_inv H; des2; simpl in E; try discriminate.
+  inversion E; subst. repeat split; try discriminate.
+Qed.
+Lemma ne_to_app : forall s th l th' evs,
+  next Fixed s th = Some (l, th', evs) -> appending (t_pc th') = true ->
+  appending (t_pc th) = true \/ (t_pc th = PS S_get /\ aget (rkey (t_key th)) (s_rcb s) = None).
+Proof. intros s th l th' evs H E. next_inv H; des2; simpl in E; try discriminate; auto. Qed.
+Lemma ne_l_qapp : forall s th th' evs q m,
+  next Fixed s th = Some (LQApp q m, th', evs) -> q = rkey (t_key th) /\ t_pc th = PS S_app.
+Proof. intros s th th' evs q m H. next_inv H; auto. Qed.
+Lemma ne_l_qpop : forall s th th' evs q,
+  next Fixed s th = Some (LQPop q, th', evs) -> q = t_key th.
+Proof. intros s th th' evs q H. next_inv H; auto. Qed.
+Lemma ne_to_cb2 : forall s th l th' evs,
+  next Fixed s th = Some (l, th', evs) -> t_pc th' = PC C_cb2 -> l = LRcbSet (t_key th).
+Proof. intros s th l th' evs H E. next_inv H; des2; simpl in E; try discriminate; auto. Qed.
+Lemma ne_to_copen : forall s th l th' evs,
+  next Fixed s th = Some (l, th', evs) -> t_pc th' = PC C_open ->
+  t_cb th = false \/ (t_pc th = PC C_cb2 /\ l = LLcbSet (t_key th)).
+Proof. intros s th l th' evs H E. next_inv H; des2; simpl in E; try discriminate; auto. Qed.
+Lemma ne_openadd_pc : forall s th l th' evs p,
+  next Fixed s th = Some (l, th', evs) -> In (EOpenAdd p) evs -> p = t_key th /\ t_pc th = PC C_open.
+Proof. intros s th l th' evs p H Hin. next_inv H; des2; ev_in Hin; auto. Qed.
+Lemma ne_head_rcbset : forall s th th' evs q,
+  next Fixed s th = Some (LRcbSet q, th', evs) -> q = t_key th /\ no_connect (t_ops th) = false.
+Proof. intros s th th' evs q H. next_inv H; simpl; auto. Qed.
+
+(* effect of a step on the callback entry and the queue of one key *)
+Lemma step_rcb_k : forall s t l s' k th th' evs,
+  stepl Fixed s t = Some (l, s') -> nth_error (s_th s) t = Some th -> next Fixed s th = Some (l, th', evs) ->
+  aget k (s_rcb s') =
+    match l with
+    | LRcbSet q => if key_eqb k q then Some t else aget k (s_rcb s)
+    | LRcbPop q => if key_eqb k q then None else aget k (s_rcb s)
+    | _ => aget k (s_rcb s)
+    end.
+Proof.
+  intros s t l s' k th th' evs H Ht Hn. apply stepl_inv in H. destruct H as (th0 & th0' & evs0 & _ & _ & _ & ->).
+  rewrite apply_rcb. destruct l; auto; [apply aget_aset | apply aget_adel].
+Qed.
+Lemma step_q_k : forall s t l s' k,
+  stepl Fixed s t = Some (l, s') ->
+  qget k (s_q s') =
+    match l with
+    | LQApp q m => if key_eqb k q then qget k (s_q s) ++ [m] else qget k (s_q s)
+    | LQPop q => if key_eqb k q then tl (qget k (s_q s)) else qget k (s_q s)
+    | _ => qget k (s_q s)
+    end.
+Proof.
+  intros s t l s' k H. apply stepl_inv in H. destruct H as (th0 & th0' & evs0 & _ & _ & _ & ->).
+  rewrite apply_q. destruct l; auto; rewrite qget_aset; destruct (key_eqb k k0) eqn:E; auto;
+  apply key_eqb_eq in E; subst; reflexivity.
+Qed.
+
+(* ---- control invariants for one callback endpoint r (key k) and its one sender sd *)
+Section CbFifo.
+Variable cfg : cfg_t.
+Variables (k : key) (r sd : nat) (c : key * bool * list op).
+Hypothesis Hsr : sole cfg k r.
+Hypothesis Hss : sole cfg (rkey k) sd.
+Hypothesis Hc : nth_error cfg r = Some c.
+Hypothesis Hck : fst (fst c) = k.
+Hypothesis Hcb : snd (fst c) = true.
+Hypothesis Hsc : script_ok (snd c) = true.
+
+Record inv_c (s : state) : Prop := {
+  c_script : forall R, nth_error (s_th s) r = Some R -> script_ok (t_ops R) = true;
+  c_reg : forall R, nth_error (s_th s) r = Some R -> (t_pc R = PC C_cb2 \/ t_pc R = PC C_open) ->
+            aget k (s_rcb s) = Some r;
+  c_hist : In (EOpenAdd k) (s_tr s) -> aget k (s_rcb s) = None ->
+            forall R, nth_error (s_th s) r = Some R -> no_connect (t_ops R) = true;
+  c_get : forall S, nth_error (s_th s) sd = Some S -> t_key S = rkey k -> t_pc S = PS S_get ->
+            In (EOpenAdd k) (s_tr s);
+  c_app : (qget k (s_q s) <> [] \/
+           exists S, nth_error (s_th s) sd = Some S /\ t_key S = rkey k /\ appending (t_pc S) = true) ->
+          aget k (s_rcb s) = None /\ forall R, nth_error (s_th s) r = Some R -> no_connect (t_ops R) = true;
+  c_call : forall t S tg, nth_error (s_th s) t = Some S -> t_key S = rkey k -> t_pc S = PS (S_call tg) ->
+            qget k (s_q s) = [] }.
+
+Lemma inv_c_init : inv_c (init cfg).
+Proof.
+  split; simpl.
+  - intros R H. apply init_thread in H. destruct H as (c' & Hc' & ->). rewrite Hc in Hc'. inversion Hc'; subst c'.
+    destruct c as [[k0 cb] ops]. exact Hsc.
+  - intros R H [E|E]; apply init_thread in H; destruct H as ([[k0 cb] ops] & _ & ->); discriminate.
+  - intros [].
+  - intros S H _ E. apply init_thread in H. destruct H as ([[k0 cb] ops] & _ & ->). discriminate.
+  - intros [H|(S & H & _ & E)]; [exfalso; apply H; reflexivity|].
+    apply init_thread in H. destruct H as ([[k0 cb] ops] & _ & ->). discriminate.
+  - intros t S tg H _ E. apply init_thread in H. destruct H as ([[k0 cb] ops] & _ & ->). discriminate.
+Qed.
+
+Lemma opened_no_in : forall p x tr, opened_no p x tr -> In (EOpenAdd p) tr.
+Proof. intros p x tr (a & b & -> & _). apply in_or_app. right. left. reflexivity. Qed.
+
+Lemma inv_c_step : forall s t l s',
+  reach cfg s -> inv_c s -> stepl Fixed s t = Some (l, s') -> inv_c s'.
+Proof.
+  intros s t l s' Rch [Isc Ireg Ihist Iget Iapp Icall] H.
+  pose proof (reach_inv_keys _ _ Rch) as IK.
+  pose proof (reach_inv_rv _ _ Rch) as IRV.
+  pose proof (stepl_inv _ _ _ _ _ H) as (th & th' & evs & Ht & Hn & He & Hs').
+  assert (Htr : s_tr s' = evs ++ s_tr s) by (subst s'; apply apply_tr).
+  pose proof (step_rcb_k _ _ _ _ k _ _ _ H Ht Hn) as RCB.
+  pose proof (step_q_k _ _ _ _ k H) as QK.
+  destruct (next_keeps _ _ _ _ _ Hn) as [NK _].
+  (* who can have key k / rkey k *)
+  assert (CL1 : t_key th = k -> t = r).
+  { intros E. destruct (IK _ _ Ht) as (c' & Hc' & K1 & _). eapply Hsr; eauto. congruence. }
+  assert (CL2 : t_key th = rkey k -> t = sd).
+  { intros E. destruct (IK _ _ Ht) as (c' & Hc' & K1 & _). eapply Hss; eauto. congruence. }
+  assert (CLn : forall n S, nth_error (s_th s) n = Some S -> t_key S = rkey k -> n = sd).
+  { intros n S HS E. destruct (IK _ _ HS) as (c' & Hc' & K1 & _). eapply Hss; eauto. congruence. }
+  assert (KR : forall R, nth_error (s_th s) r = Some R -> t_key R = k /\ t_cb R = true).
+  { intros R HR. destruct (IK _ _ HR) as (c' & Hc' & K1 & K2). rewrite Hc in Hc'. inversion Hc'; subst c'. split; congruence. }
+  (* the thread at r / at any index after the step *)
+  assert (POST : forall n x, nth_error (s_th s') n = Some x ->
+            (n = t /\ ctl x = ctl th') \/ (n <> t /\ exists y, nth_error (s_th s) n = Some y /\ ctl x = ctl y)).
+  { intros n x Hx. destruct (step_threads _ _ _ _ _ _ _ H Hx) as (th0 & th0' & evs0 & Ht0 & Hn0 & Hcc).
+    rewrite Ht in Ht0; inversion Ht0; subst th0. rewrite Hn in Hn0; inversion Hn0; subst th0' evs0. exact Hcc. }
+  (* the ops of thread r only shrink *)
+  assert (OPS : forall R', nth_error (s_th s') r = Some R' ->
+            exists R, nth_error (s_th s) r = Some R /\ (t_ops R' = t_ops R \/ t_ops R' = tl (t_ops R))).
+  { intros R' HR'. destruct (POST _ _ HR') as [[-> Hcc]|[Hne (y & Hy & Hcc)]]; apply ctl_kc in Hcc;
+    destruct Hcc as (_ & _ & _ & Ho & _).
+    - exists th. split; auto. rewrite Ho. eapply ne_ops; eauto.
+    - exists y. split; auto. }
+  (* once the entry of k is None and r has no connect left, this stays so *)
+  assert (STAB : aget k (s_rcb s) = None ->
+                 (forall R, nth_error (s_th s) r = Some R -> no_connect (t_ops R) = true) ->
+                 aget k (s_rcb s') = None /\
+                 forall R', nth_error (s_th s') r = Some R' -> no_connect (t_ops R') = true).
+  { intros N NC. split.
+    - rewrite RCB. destruct l; auto.
+      + destruct (key_eqb k k0) eqn:E; auto. apply key_eqb_eq in E; subst k0.
+        destruct (ne_head_rcbset _ _ _ _ _ Hn) as [Ek F]. symmetry in Ek. pose proof (CL1 Ek); subst t.
+        rewrite (NC _ Ht) in F. discriminate.
+      + destruct (key_eqb k k0); auto.
+    - intros R' HR'. destruct (OPS _ HR') as (R & HR & [-> | ->]); [|apply no_connect_tl]; eauto. }
+  split.
+  - (* script *)
+    intros R' HR'. destruct (OPS _ HR') as (R & HR & [-> | ->]); [|apply script_ok_tl]; eauto.
+  - (* registered while publishing *)
+    intros R' HR' Hpc. destruct (POST _ _ HR') as [[E Hcc]|[Hne (y & Hy & Hcc)]]; apply ctl_kc in Hcc;
+    destruct Hcc as (_ & _ & Hp & _).
+    + subst t. destruct (KR _ Ht) as [Kk Kc]. rewrite Hp in Hpc. rewrite RCB. destruct Hpc as [Hpc|Hpc].
+      * rewrite (ne_to_cb2 _ _ _ _ _ Hn Hpc), Kk, key_eqb_refl. reflexivity.
+      * destruct (ne_to_copen _ _ _ _ _ Hn Hpc) as [F|[P ->]]; [congruence|]. apply (Ireg _ Ht). auto.
+    + rewrite Hp in Hpc. pose proof (Ireg _ Hy Hpc) as G. rewrite RCB.
+      destruct l; auto.
+      * destruct (key_eqb k k0) eqn:E; auto. apply key_eqb_eq in E; subst k0.
+        destruct (ne_head_rcbset _ _ _ _ _ Hn) as [Ek _]. symmetry in Ek. exfalso. apply Hne. symmetry. auto.
+      * destruct (key_eqb k k0) eqn:E; auto. apply key_eqb_eq in E; subst k0.
+        destruct (ne_l_rcbpop _ _ _ _ _ Hn) as [Ek _]. symmetry in Ek. exfalso. apply Hne. symmetry. auto.
+  - (* opened before, entry gone -> no connect left *)
+    intros Hin N R' HR'. rewrite Htr in Hin. apply in_app_or in Hin. destruct Hin as [Hin|Hin].
+    + exfalso. destruct (ne_openadd_pc _ _ _ _ _ _ Hn Hin) as [Ek Pc]. symmetry in Ek. pose proof (CL1 Ek); subst t.
+      destruct (ne_openadd _ _ _ _ _ _ Hn Hin) as (-> & _). rewrite RCB in N.
+      rewrite (Ireg _ Ht (or_intror Pc)) in N. discriminate.
+    + assert (D : (exists q, l = LRcbPop q /\ key_eqb k q = true) \/ aget k (s_rcb s) = None).
+      { rewrite RCB in N. destruct l; auto.
+        - destruct (key_eqb k k0); [discriminate|auto].
+        - destruct (key_eqb k k0) eqn:E; eauto. }
+      destruct D as [(q & -> & E)|N0].
+      * apply key_eqb_eq in E; subst q. destruct (ne_l_rcbpop _ _ _ _ _ Hn) as [Ek (ops & Ho)].
+        symmetry in Ek. pose proof (CL1 Ek); subst t.
+        pose proof (Isc _ Ht) as SO. rewrite Ho in SO. simpl in SO.
+        destruct (OPS _ HR') as (R & HR & Eo). rewrite Ht in HR; inversion HR; subst R. rewrite Ho in Eo.
+        destruct Eo as [-> | ->]; simpl; auto.
+      * destruct (STAB N0 (Ihist Hin N0)) as [_ G]. auto.
+  - (* sender past the open check *)
+    intros S' HS' Ek Hpc. rewrite Htr. apply in_or_app. right.
+    destruct (POST _ _ HS') as [[E Hcc]|[Hne (y & Hy & Hcc)]]; apply ctl_kc in Hcc;
+    destruct Hcc as (Hk & _ & Hp & _).
+    + rewrite Hp in Hpc. pose proof (ne_to_sget _ _ _ _ _ Hn Hpc) as M.
+      assert (Ekk : rkey (t_key th) = k) by (rewrite <- NK, <- Hk, Ek; apply rkey_invol).
+      rewrite Ekk in M. eapply opened_no_in. apply (ir_o _ IRV). exact M.
+    + rewrite Hp in Hpc. eapply Iget; eauto. congruence.
+  - (* queue non-empty or sender appending -> entry gone for good *)
+    intros A.
+    assert (A0 : (qget k (s_q s) <> [] \/
+                  exists S, nth_error (s_th s) sd = Some S /\ t_key S = rkey k /\ appending (t_pc S) = true) \/
+                 (aget k (s_rcb s) = None /\ In (EOpenAdd k) (s_tr s))).
+    { destruct A as [A|(S' & HS' & Ek & Ap)].
+      - rewrite QK in A. destruct l; auto.
+        + destruct (key_eqb k k0) eqn:E; auto. apply key_eqb_eq in E; subst k0.
+          destruct (ne_l_qapp _ _ _ _ _ _ Hn) as [Eq Pc].
+          assert (Ek : t_key th = rkey k) by (rewrite Eq; symmetry; apply rkey_invol).
+          pose proof (CL2 Ek); subst t. left. right. exists th. rewrite Pc. auto.
+        + destruct (key_eqb k k0) eqn:E; auto. left. left. intros Q. rewrite Q in A. apply A. reflexivity.
+      - destruct (POST _ _ HS') as [[E Hcc]|[Hne (y & Hy & Hcc)]]; apply ctl_kc in Hcc;
+        destruct Hcc as (Hk & _ & Hp & _).
+        + subst t. rewrite Hp in Ap. assert (Ekk : t_key th = rkey k) by congruence.
+          destruct (ne_to_app _ _ _ _ _ Hn Ap) as [Ap0|[Pc N]].
+          * left. right. exists th. auto.
+          * right. rewrite Ekk, rkey_invol in N. split; auto. eapply Iget; eauto.
+        + left. right. exists y. rewrite <- Hp, <- Hk. auto. }
+    destruct A0 as [A0|[N Hin]].
+    + destruct (Iapp A0) as [N NC]. apply STAB; auto.
+    + apply STAB; auto.
+  - (* a pending callback call sees an empty queue *)
+    intros n S' tg HS' Ek Hpc.
+    destruct (POST _ _ HS') as [[E Hcc]|[Hne (y & Hy & Hcc)]]; apply ctl_kc in Hcc;
+    destruct Hcc as (Hk & _ & Hp & _).
+    + subst n. rewrite Hp in Hpc. destruct (ne_to_scall2 _ _ _ _ _ _ Hn Hpc) as (G & NA & NP).
+      assert (Ekk : rkey (t_key th) = k) by (rewrite <- NK, <- Hk, Ek; apply rkey_invol).
+      rewrite Ekk in G.
+      assert (Q : qget k (s_q s) = []).
+      { destruct (qget k (s_q s)) eqn:Q; auto. exfalso.
+        destruct Iapp as [N _]. { left. try rewrite Q. discriminate. } congruence. }
+      rewrite QK. destruct l; auto; [exfalso; eapply NA; eauto | exfalso; eapply NP; eauto].
+    + rewrite Hp in Hpc. assert (Eky : t_key y = rkey k) by congruence.
+      pose proof (Icall _ _ _ Hy Eky Hpc) as Q. rewrite QK. destruct l; auto.
+      * destruct (key_eqb k k0) eqn:E; auto. apply key_eqb_eq in E; subst k0. exfalso.
+        destruct (ne_l_qapp _ _ _ _ _ _ Hn) as [Eq _].
+        assert (Ekt : t_key th = rkey k) by (rewrite Eq; symmetry; apply rkey_invol).
+        apply Hne. rewrite (CL2 Ekt). eapply CLn; eauto.
+      * destruct (key_eqb k k0); auto. rewrite Q. reflexivity.
+Qed.
+
+Lemma reach_inv_c : forall s, reach cfg s -> inv_c s.
+Proof. intros s R. induction R; [apply inv_c_init | eapply inv_c_step; eauto]. Qed.
+
+End CbFifo.
+
+Lemma sent_log_app : forall k evs tr, sent_log k (evs ++ tr) = sent_log k tr ++ sent_log k evs.
+Proof. intros. unfold sent_log. rewrite rev_app_distr, flat_map_app. reflexivity. Qed.
+Lemma recv_log_app : forall k evs tr, recv_log k (evs ++ tr) = recv_log k tr ++ recv_log k evs.
+Proof. intros. unfold recv_log. rewrite rev_app_distr, flat_map_app. reflexivity. Qed.
+
+Definition inv_full (k : key) (s : state) : Prop :=
+  sent_log k (s_tr s) = recv_log k (s_tr s) ++ qget k (s_q s).
+
+Lemma inv_full_step : forall k s t l s',
+  inv_full k s -> stepl Fixed s t = Some (l, s') ->
+  (forall th tg, nth_error (s_th s) t = Some th -> t_pc th = PS (S_call tg) -> rkey (t_key th) = k ->
+                 qget k (s_q s) = []) ->
+  inv_full k s'.
+Proof.
+  intros k s t l s' I H P. apply stepl_inv in H. destruct H as (th & th' & evs & Ht & Hn & He & ->).
+  unfold inv_full in *. rewrite apply_tr, sent_log_app, recv_log_app.
+  specialize (P th).
+  next_inv Hn; repeat match goal with |- context [if kmem ?a ?b then _ else _] => destruct (kmem a b) eqn:? end;
+  simpl; rewrite ?app_nil_r; try exact I.
+  - (* S_call: callback delivery *)
+    unfold sent_log, recv_log at 2; simpl. rewrite !app_nil_r.
+    destruct (key_eqb k (rkey (t_key th))) eqn:E; [|rewrite !app_nil_r; exact I].
+    apply key_eqb_eq in E. pose proof (P target Ht eq_refl (eq_sym E)) as Q.
+    rewrite Q in *. rewrite app_nil_r in *. change (flat_map (sent_ev k) (rev (s_tr s))) with (sent_log k (s_tr s)).
+    rewrite I. reflexivity.
+  - (* S_app *)
+    rewrite qget_aset. unfold sent_log at 2; simpl. rewrite app_nil_r.
+    destruct (key_eqb k (rkey (t_key th))) eqn:E.
+    + apply key_eqb_eq in E; subst k. rewrite I, app_assoc. reflexivity.
+    + rewrite app_nil_r. exact I.
+  - (* R_pop, empty queue *)
+    rewrite qget_aset. destruct (key_eqb k (t_key th)) eqn:E.
+    + apply key_eqb_eq in E; subst k. rewrite Hq in *. simpl. exact I.
+    + exact I.
+  - (* R_pop, m :: _ *)
+    rewrite qget_aset. unfold recv_log at 2; simpl. rewrite app_nil_r.
+    destruct (key_eqb k (t_key th)) eqn:E.
+    + apply key_eqb_eq in E; subst k. rewrite Hq in I. rewrite Hq. simpl. rewrite I, <- app_assoc. reflexivity.
+    + rewrite app_nil_r. exact I.
+Qed.
+
+(* ================= fifo for callback endpoints *)
+(* k is the key of ONE endpoint thread r (not re-used by another thread) which never
+   connects again after a disconnect; messages to k come from ONE thread sd (which may
+   disconnect and reconnect).  Then, callback delivery included: received = prefix of
+   sent, remainder = pending queue. *)
 Definition fifo_exact_cb_stmt : Prop :=
   forall cfg sch k r sd c, sole cfg k r -> sole cfg (rkey k) sd ->
-    nth_error cfg r = Some c -> script_ok (snd c) = true ->
+    nth_error cfg r = Some c -> fst (fst c) = k -> script_ok (snd c) = true ->
     let s := run Fixed (init cfg) sch in
     sent_log k (s_tr s) = recv_log k (s_tr s) ++ qget k (s_q s).
 
-(* What IS proved for every key, callback endpoints and key re-use included:
-   (a) the queue path is exactly-once and in order: appended = popped ++ pending;
-   (b) a callback delivery is one atomic step that hands over exactly the message being
-       sent (the same event ECb k m is the send and the receipt), so the callback path
-       neither loses, duplicates nor reorders among callback deliveries.
-   MISSING for the full statement: that no callback delivery happens while the queue of k
-   is non-empty (a chain of positional invariants on the receiver's script position:
-   k in open -> callback registered; sender past its lookup with None -> receiver has
-   popped its callback and, by script_ok, never registers again).  The unrestricted
-   statement is false (C18_fifo_all_refuted: key re-use). *)
-Definition fifo_exact_cb_partial_stmt : Prop :=
-  forall cfg sch k, let s := run Fixed (init cfg) sch in
-    sentq k (s_tr s) = recvq k (s_tr s) ++ qget k (s_q s) /\
-    (forall m, In (ECb k m) (s_tr s) ->
-       exists n x, nth_error (s_th s) n = Some x /\ t_key x = k /\ t_cb x = true).
-
-Theorem fifo_exact_cb_partial : fifo_exact_cb_partial_stmt.
+Theorem fifo_exact_cb : fifo_exact_cb_stmt.
 Proof.
-  intros cfg sch k s.
+  intros cfg sch k r sd c Hsr Hss Hc Hck Hsc s.
+  destruct (snd (fst c)) eqn:Hcb.
+  - assert (G : forall s0, reach cfg s0 -> inv_full k s0).
+    { intros s0 R. induction R.
+      - reflexivity.
+      - eapply inv_full_step; eauto. intros th tg Ht Hpc Ek.
+        eapply (c_call _ _ _ _ (reach_inv_c cfg k r sd c Hsr Hss Hc Hck Hcb Hsc _ R)); eauto.
+        rewrite <- Ek. symmetry. apply rkey_invol. }
+    apply G. apply reach_run. constructor.
+  - apply fifo_exact. intros c' Hin Ek. apply In_nth_error in Hin. destruct Hin as (n & Hn).
+    pose proof (Hsr _ _ Hn Ek). subst n. rewrite Hc in Hn. inversion Hn; subst. exact Hcb.
+Qed.
+
+(* a callback endpoint that has a connect ahead of it or is connected (its callback entry
+   is not removed) has nothing in its queue: whatever is sent reaches the callback *)
+Definition cb_not_stranded_stmt : Prop :=
+  forall cfg sch k r sd c, sole cfg k r -> sole cfg (rkey k) sd ->
+    nth_error cfg r = Some c -> fst (fst c) = k -> snd (fst c) = true -> script_ok (snd c) = true ->
+    let s := run Fixed (init cfg) sch in
+    qget k (s_q s) <> [] ->
+    aget k (s_rcb s) = None /\
+    forall R, nth_error (s_th s) r = Some R -> no_connect (t_ops R) = true.
+
+Theorem cb_not_stranded : cb_not_stranded_stmt.
+Proof.
+  intros cfg sch k r sd c Hsr Hss Hc Hck Hcb Hsc s Q.
   assert (R : reach cfg s) by (apply reach_run; constructor).
-  split.
-  - apply (reach_inv_q _ _ R).
-  - intros m Hin. exact (icb_e _ (reach_inv_cb _ _ R) _ _ Hin).
+  apply (c_app _ _ _ _ (reach_inv_c cfg k r sd c Hsr Hss Hc Hck Hcb Hsc _ R)). left. exact Q.
 Qed.
